@@ -259,7 +259,8 @@ def add_protection_variants_stream(env, res=None, directory: str = 'sy5') -> dic
     files = {'sy5_v1': (fx / 'bbb_v7.mp4').read_bytes(),
              'sy5_v1_enc': drop_mehd((fx / 'bbb_v7_enc.mp4').read_bytes()),
              'sy5_a1_enc': restructure(a_enc, moof_pssh=pssh),
-             'sy5_a2_enc': bytes(a2s)}
+             'sy5_a2_enc': bytes(a2s),
+             'sy5_a3_enc': widen_ivs(a_enc)}          # 16 byte per-sample IVs (the fixtures all use 8)
     for name, data in files.items():
         assert len(ib.index_file(data).segments) == 10, name
     env.add_stream(directory, title='Synthetic: no mehd, two key ids', files=files)
@@ -370,7 +371,8 @@ def add_layout_variants_stream(env, res=None, directory: str = 'sy7') -> int:
     files = {'sy7_v1': pad_mdat((fx / 'bbb_v7.mp4').read_bytes(), 492000),      # every segment > 480 KiB
              'sy7_v1_enc': (fx / 'bbb_v7_enc.mp4').read_bytes(),
              'sy7_a1_enc': restructure((fx / 'bbb_a1_enc.mp4').read_bytes(), explicit_base=True),
-             'sy7_a1': bytes(a1)}
+             'sy7_a1': bytes(a1),
+             'sy7_a3_enc': widen_ivs((fx / 'bbb_a1_enc.mp4').read_bytes())}     # 16 byte per-sample IVs
     for name, data in files.items():
         assert len(ib.index_file(data).segments) == 10, name
     assert min(s_.mdat_payload[1] - s_.mdat_payload[0] for s_ in ib.index_file(files['sy7_v1']).segments) > 30 * 16384
